@@ -29,6 +29,8 @@ EXPLANATION += ' X86-/A64-/RV-LOOPLOAD.'
 
 EXPLANATION += ' A64-DSITEM-HSEM, A64-DSREAD-LIGHT, RV-DSREAD-LIGHT.'
 
+EXPLANATION += ' RV-DSITEM-HSEM.'
+
 
 def run(ctx, R):
     F = astq.Facts(ctx, 'K0')
@@ -85,3 +87,4 @@ def run(ctx, R):
     rvdsread.rule_loopload(ctx, R)
     rvdsread.rule_dsread_light(ctx, R)
     a64dsread.rule_dsitem(ctx, R)
+    rvdsread.rule_dsitem(ctx, R)
